@@ -1,16 +1,18 @@
-"""C06: sector / label monitor over algebra sessions (runs 0 mod 3), real-time (1 mod 3) and imaginary-time/thermal (2 mod 3) sessions."""
+"""C06: sector / label monitor over algebra sessions (runs 0 mod 4), real-time (1 mod 4), imaginary-time/thermal (2 mod 4) and tree sessions (3 mod 4)."""
 import random
 from simlab import session
 from simlab.profiles.chainprof import ChainProfile
 from simlab.profiles.evoprof import EvoProfile, W_C09, W_C10
+from simlab.profiles.treeprof import TreeProfile
 
 ID = "C06"
-_P = {"algebra": ChainProfile("C06"), "real": EvoProfile("C06", dict(W_C09, truncate=0.8, add=0.8, apply=0.8)), "imag": EvoProfile("C06", dict(W_C10, truncate=0.5))}
-_ORDER = ["algebra", "real", "imag"]
+_P = {"algebra": ChainProfile("C06"), "real": EvoProfile("C06", dict(W_C09, truncate=0.8, add=0.8, apply=0.8)), "imag": EvoProfile("C06", dict(W_C10, truncate=0.5)),
+      "tree": TreeProfile("C06")}
+_ORDER = ["algebra", "real", "imag", "tree"]
 
 
 def generate_and_run(seed, index, tier):
-    fam = _ORDER[index % 3]
+    fam = _ORDER[index % 4]
     prof = _P[fam]
     rnd = random.Random(seed)
     header = prof.gen_header(rnd, tier)
